@@ -4,8 +4,8 @@ null).  Errors are part of the contract (pandas expects them): IndexError for in
 non-empty take from an empty array, ValueError for indices < -1 with allow_fill or a non-NA fill value."""
 import z3
 
-from pyvc.contracts import Arr, Bool, Const, Contract, NoneSort, Sort
-from pyvc.values import (NONE, SBool, SInt, SNone, SRecord, SStr, And, Implies, Ite, Not, Or, exists, forall)
+from pyvc.contracts import Arr, Bool, Const, Contract, Int, NoneSort, Rec, Sort
+from pyvc.values import (NONE, SBool, SInt, SNone, SRecord, SStr, Unsupported, And, Implies, Ite, Not, Or, exists, forall)
 from .glue_rep import ListGeomArray, OUT, rep_of, vals_of
 from .glue_polygon import is_null
 
@@ -24,7 +24,129 @@ class TakeSelf(ListGeomArray):
         return me, a
 
 
+def _py_slice(n, start, stop):
+    """(first position, length) selected by the step-1 slice start:stop of a sequence of length n (python semantics;
+    an omitted end is None)"""
+    def norm(v, default):
+        if v is None:
+            return default
+        return Ite(v < 0, Ite(v + n < 0, SInt(0), v + n), Ite(v > n, n, v))
+    a, b = norm(start, SInt(0)), norm(stop, n)
+    return a, Ite(b > a, b - a, SInt(0))
+
+
+class SliceSelf(TakeSelf):
+    """the array with the assumed pyarrow contracts of `data[slice]` (python slice semantics, step 1) and
+    `data.slice(offset, length)` (requires 0 <= offset <= len and length >= 0: pyarrow raises otherwise; the
+    window is clipped at the end): both return the window (first, length) of the source"""
+
+    def make(self, state, name):
+        me, a = super().make(state, name)
+        rep = me.fields['listarray']
+
+        def window(obj, first, length):
+            return SRecord('ListArrayTake', {'source': obj, 'first': first, 'length': length, 'window': SBool(True)})
+
+        def getitem(eng, s, fr, obj, args, kwargs, lineno):
+            key = args[0]
+            if not (isinstance(key, SRecord) and key.cls == 'slice'):
+                raise Unsupported("pyarrow subscript other than a slice")
+            stp = key.fields['step']
+            if not (isinstance(stp, SNone) or (isinstance(stp, SInt) and stp.concrete and stp.v == 1)):
+                raise Unsupported("pyarrow slice with a step")
+            g = lambda v: None if isinstance(v, SNone) else v
+            first, length = _py_slice(obj.fields['length'], g(key.fields['start']), g(key.fields['stop']))
+            return window(obj, first, length)
+
+        def slice_(eng, s, fr, obj, args, kwargs, lineno):
+            n = obj.fields['length']
+            off = args[0] if args else kwargs.get('offset', SInt(0))
+            ln = args[1] if len(args) > 1 else kwargs.get('length', NONE)
+            eng.oblige(fr, s, 'pre', 'pyarrow.slice-offset-in-range', And(off >= 0, off <= n), lineno)
+            if isinstance(ln, SNone):
+                return window(obj, off, n - off)
+            eng.oblige(fr, s, 'pre', 'pyarrow.slice-length-non-negative', ln >= 0, lineno)
+            return window(obj, off, Ite(ln > n - off, n - off, ln))
+        rep.fields['m:__getitem__'] = getitem
+        rep.fields['m:slice'] = slice_
+        return me, a
+
+
+def register_getitem(reg):
+    """GeometryArray.__getitem__ for slice keys with step None / 1 (C16): the result is of the same class and wraps
+    exactly the window of the source that python's slice semantics define - start after stop is the empty selection,
+    never an error"""
+    cfgs = [{'levels': 1, 'start': a, 'stop': b, 'step': c} for a in ('none', 'int') for b in ('none', 'int')
+            for c in ('none', 'one')]
+
+    class SliceKey(Sort):
+        """a python slice object with step None / 1; slice.indices(n) has python's (exactly specified) semantics"""
+
+        def __init__(self, cfg):
+            self.cfg = cfg
+
+        def make(self, state, name):
+            from pyvc.contracts import make_symbolic
+            from pyvc.values import STuple
+            cfg = self.cfg
+            rec, a = make_symbolic(Rec('slice', start=Int() if cfg['start'] == 'int' else NoneSort(),
+                                       stop=Int() if cfg['stop'] == 'int' else NoneSort(),
+                                       step=Int(conc=1) if cfg['step'] == 'one' else NoneSort()), state, name)
+
+            def indices(eng, s, fr, obj, args, kwargs, lineno):
+                n = args[0]
+                g = lambda v: None if isinstance(v, SNone) else v
+                norm = lambda v, d: d if v is None else Ite(v < 0, Ite(v + n < 0, SInt(0), v + n), Ite(v > n, n, v))
+                return STuple([norm(g(obj.fields['start']), SInt(0)), norm(g(obj.fields['stop']), n), SInt(1)])
+            rec.fields['m:indices'] = indices
+            return rec, a
+
+    def params(cfg):
+        return [('self', SliceSelf(1)), ('item', SliceKey(cfg))]
+
+    def ens(c, r):
+        n = rep_of(c.self).length
+        start = c.item.start if c.config['start'] == 'int' else None
+        stop = c.item.stop if c.config['stop'] == 'int' else None
+        first, length = _py_slice(n, start, stop)
+        t = r.data
+        if 'source' not in t._rec.fields:
+            # a real result (concrete replay / witness search): slot k holds element first + k of the source
+            class _R:
+                listarray = t
+            rv, sv = vals_of(_R), vals_of(c.self)
+
+            def slot_ok(k):
+                j = first + k
+                a0, a1 = OUT(_R, 1, k), OUT(_R, 1, k + 1)
+                b0, b1 = OUT(c.self, 1, j), OUT(c.self, 1, j + 1)
+                same = And(a1 - a0 == b1 - b0, forall('int', lambda q: Implies(And(q >= 0, q < a1 - a0), rv[a0 + q].same(sv[b0 + q]))))
+                return And(is_null(_R, k) == is_null(c.self, j), Or(is_null(_R, k), same))
+            return [('length-as-python-defines', t.length == length),
+                    ('slot-k-is-element-first-plus-k', forall('int', lambda k: Implies(And(k >= 0, k < length), slot_ok(k))))]
+        return [('window-of-this-array', SBool(t.source._rec is rep_of(c.self)._rec)),
+                ('first-as-python-defines', Or(length == 0, t.first == first)),
+                ('length-as-python-defines', t.length == length)]
+
+    def gen(rng, config):
+        me = TakeSelf(1).gen(rng, config)
+        for _ in range(20):
+            if me['fields']['listarray']['fields']['length']['v'] >= 3 or rng.random() < 0.2:
+                break
+            me = TakeSelf(1).gen(rng, config)
+        n = me['fields']['listarray']['fields']['length']['v']
+        pick = lambda: rng.randint(-n - 2, n + 2)
+        f = {'start': {'k': 'int', 'v': pick()} if config['start'] == 'int' else {'k': 'none'},
+             'stop': {'k': 'int', 'v': pick()} if config['stop'] == 'int' else {'k': 'none'},
+             'step': {'k': 'int', 'v': 1} if config['step'] == 'one' else {'k': 'none'}}
+        return [me, {'k': 'record', 'cls': 'slice', 'fields': f}]
+
+    reg.add(Contract(BASE + '::GeometryArray.__getitem__', params, returns=None, ensures=ens, configs=cfgs, props=('C16',),
+                     gen=gen, note='slice keys with step None / 1; pyarrow __getitem__(slice) and slice(offset, length) assumed'))
+
+
 def register(reg):
+    register_getitem(reg)
     cfgs = [{'levels': 1, 'allow_fill': f} for f in (False, True)]
 
     def params(cfg):
